@@ -307,6 +307,62 @@ def _passed_on_variants(f, code, p):
     return out
 
 
+def rule_atomic(R):
+    """a malformed packet is never partially acted upon: while the CONNACK's property block is still being examined,
+    nothing is written into session state -- the values are kept aside (locals / a local struct) and applied only once
+    the whole block was accepted.  A store through `&mut self.<field>` inside the property loop adopts a value from a
+    packet that a later property may still cause to be rejected."""
+    f = R.f
+    call, hb, hcode = roles.handshake(f)
+    bad = []
+    n = 0
+    for cb in [hcode] + [c for c in f.children(hcode) if c.kind == "closure"]:
+        arms_blocks = set()
+        for bb in sorted(cb.switches):
+            if bb not in cb.reachable:
+                continue
+            si = cb.switch_info(bb)
+            if si["enum"] != "properties::Property":
+                continue
+            for v, tgt in si["edges"].items():
+                others = [t for k, t in si["edges"].items() if k != v] + [si["otherwise"]]
+                arms_blocks |= cb.reach([tgt], avoid=[bb]) - cb.reach([o for o in others if o != tgt], avoid=[bb])
+        if not arms_blocks:
+            continue
+        n += 1
+        # captures of this closure that are `&mut <state field>`
+        state_caps = {}
+        if cb.kind == "closure":
+            for bb2, j2, s2 in hcode.assigns():
+                rv = s2["rv"]
+                if "agg" in rv and rv["agg"].get("def") == cb.name:
+                    names = rv["agg"].get("fields", [])
+                    for k, op in enumerate(rv["ops"]):
+                        pl = op.get("move") or op.get("copy")
+                        if pl is None or pl["proj"] or k >= len(names):
+                            continue
+                        for dd in hcode.defs().get(pl["l"], []):
+                            if dd[0] == "stmt":
+                                rv2 = hcode.blocks[dd[1]]["stmts"][dd[2]]["rv"]
+                                if "ref" in rv2 and rv2.get("mut"):
+                                    st = [e for e in rv2["ref"]["proj"] if isinstance(e, dict) and e.get("of") in roles.STATE_ADTS]
+                                    if st:
+                                        state_caps[names[k]] = "%s.%s" % (st[-1]["of"].rsplit("::", 1)[-1], st[-1].get("name"))
+        for (sb, j, dst, rv, s_) in cb.stores():
+            if sb not in arms_blocks:
+                continue
+            st = [e for e in dst["proj"] if isinstance(e, dict) and e.get("of") in roles.STATE_ADTS]
+            if st:
+                bad.append(("%s.%s" % (st[-1]["of"].rsplit("::", 1)[-1], st[-1].get("name")), s_["span"]))
+                continue
+            t = cb.place_term(dst)
+            if t[0] == "deref" and t[1][0] == "param" and t[1][1] in state_caps:
+                bad.append((state_caps[t[1][1]], s_["span"]))
+    R.ob("atomic/connack-properties", n >= 1 and not bad,
+         "the handshake applies nothing from the CONNACK before its whole property block was accepted%s"
+         % ("" if not bad else ": the property loop stores into %s" % bad[0][0]), where=bad[0][1] if bad else hb.span)
+
+
 def rule_unreachable(R):
     f = R.f
     cm = roles.conn_methods(f)
@@ -692,3 +748,4 @@ def run(R):
     R.rule("tables", rule_tables)
     R.rule("varint", rule_varint)
     R.rule("latch", rule_latch)
+    R.rule("atomic", rule_atomic)
